@@ -54,8 +54,9 @@ def _err(errors, kind, msg, **kw):
 class SourceD(object):
     """Reader double.  table: name -> text | ('error', kind) ; absent names are not found."""
 
-    def __init__(self, trace, ident, table, mtime=100):
+    def __init__(self, trace, ident, table, mtime=100, alias=None):
         self.trace, self.ident, self.table, self.mtime = trace, ident, table, mtime
+        self.alias = alias      # None | 'lower': report the file under another (lower-case) name
         self.injected = {}
 
     def __str__(self):
@@ -79,8 +80,9 @@ class SourceD(object):
             self.trace.add(comp, 'getData', 'raise', name=mibname, exc=v[1], err=exc)
             raise exc
         self.trace.add(comp, 'getData', 'ret', name=mibname, text=v)
-        return MibInfo(path='dbl://%s/%s' % (self.ident, mibname), file=mibname + '.txt',
-                       name=mibname, mtime=self.mtime), v
+        name = mibname.lower() if self.alias == 'lower' else mibname
+        return MibInfo(path='dbl://%s/%s' % (self.ident, mibname), file=name + '.txt',
+                       name=name, mtime=self.mtime), v
 
 
 class ParserW(object):
